@@ -48,7 +48,7 @@ class C02Suite(cc.ChainSuite):
                             msgs.append("result: waiter w%d saw has_value()=%s, the winner supplied %s" % (w, o[3:], exp))
                     elif o != "notready" and o != exp:
                         msgs.append("result: waiter w%d observed %s, the winner supplied %s" % (w, o, exp))
-        if i["counted"] and not i["counted"].endswith("=0"):
+        if i["counted"] and not i["counted"].endswith("=0") and i["obs"]:
             msgs.append("result: the released waiters were shown a value that was constructed/destroyed unevenly (%s)" % i["counted"])
         return msgs
 
